@@ -55,6 +55,10 @@ class PathCtx:
         self.probed = {}
         self.char_src = {}     # ast id of a decoded 1-byte char term -> its byte symbol
         self.pin_probe = False
+        self.diff_rate = float(os.environ.get('VERIF_DIFF_RATE', '0') or 0)
+        self.rng = random.Random((seed or 0) * 7919 + len(self.prefix))
+        self.n_diff = 0
+        self.n_diff_skipped = 0
 
     # ------------------------------------------------------------------ symbols
     def bv(self, name, w):
@@ -83,9 +87,28 @@ class PathCtx:
             self.n_unsat += 1
         else:
             self.n_unknown += 1
-        if self.diff_log is not None:
-            self.diff_log(self.solver, extra, r)
+        if self.diff_rate and r in (z3.sat, z3.unsat) and self.rng.random() < self.diff_rate:
+            self._cross_check(extra, r)
         return r
+
+    def _cross_check(self, extra, r):
+        """second opinion from cvc5 on the same query (SMT-LIB2 text); a disagreement makes the path inconclusive"""
+        s2 = z3.Solver()
+        s2.add(self.solver.assertions())
+        for c in extra:
+            s2.add(c)
+        text = '(set-logic ALL)\n' + s2.to_smt2()
+        try:
+            p = subprocess.run(['cvc5', '--lang', 'smt2', '--tlimit=5000'], input=text.encode(), stdout=subprocess.PIPE, stderr=subprocess.PIPE, timeout=20)
+            out = p.stdout.decode('utf-8', 'replace').strip().split('\n')[0] if p.stdout else ''
+        except Exception:
+            out = ''
+        if out not in ('sat', 'unsat'):
+            self.n_diff_skipped += 1      # cvc5 could not parse/decide it (e.g. z3-specific bv2int): not comparable
+            return
+        self.n_diff += 1
+        if (out == 'sat') != (r == z3.sat):
+            raise Inconclusive('z3 says %s, cvc5 says %s for the same query' % (r, out))
 
     def add(self, c, keep_model=False):
         """assert a constraint.  The cached model stays valid only when the caller knows it satisfies c."""
@@ -314,6 +337,7 @@ class PathCtx:
 # ------------------------------------------------------------------------------------- pool driver
 
 _G = {}
+GLOBAL_STATS = {'explorations': 0, 'cvc5_agreed': 0, 'cvc5_skipped': 0, 'truncated': 0}
 
 
 def _worker_init():
@@ -348,6 +372,8 @@ def _run_paths(task):
         stats['solver_s'] += px.solver_time
         stats['steps'] += it.steps
         stats['decisions'] += len(px.decisions)
+        stats['cvc5_agreed'] = stats.get('cvc5_agreed', 0) + px.n_diff
+        stats['cvc5_skipped'] = stats.get('cvc5_skipped', 0) + px.n_diff_skipped
         stats['max_depth'] = max(stats['max_depth'], len(px.decisions))
         recs.append(rec)
     return recs, stack, stats, sorted(it.models_used), sorted(it.bodies_used)
@@ -470,6 +496,8 @@ def explore(engine, harness, params, workers=None, max_paths=None, wall_budget=N
                     pending.extend(rest)
                     for k in ('paths', 'sat', 'unsat', 'unknown', 'solver_s', 'steps', 'decisions'):
                         total[k] += st[k]
+                    for k in ('cvc5_agreed', 'cvc5_skipped'):
+                        total[k] = total.get(k, 0) + st.get(k, 0)
                     total['max_depth'] = max(total['max_depth'], st['max_depth'])
                     models_used.update(mu)
                     bodies_used.update(bu)
@@ -488,6 +516,10 @@ def explore(engine, harness, params, workers=None, max_paths=None, wall_budget=N
     summary['workers'] = workers
     summary['models_used'] = sorted(models_used)
     summary['bodies_used'] = sorted(bodies_used)
+    GLOBAL_STATS['explorations'] += 1
+    GLOBAL_STATS['cvc5_agreed'] += total.get('cvc5_agreed', 0)
+    GLOBAL_STATS['cvc5_skipped'] += total.get('cvc5_skipped', 0)
+    GLOBAL_STATS['truncated'] += 1 if truncated else 0
     return records, summary
 
 
